@@ -515,3 +515,17 @@ pub fn registry() -> Vec<VT> {
 	out.extend(d.into_iter().map(|(_, t)| t));
 	out
 }
+
+/// Run a worker sub-process of this binary (`pscv --worker <args>`); returns (exit code, signal,
+/// stdout). Used where the subject may kill the process (stack overflow, allocation abort).
+pub fn spawn_worker(args: &[String]) -> (Option<i32>, Option<i32>, String) {
+	use std::os::unix::process::ExitStatusExt;
+	let exe = std::env::current_exe().expect("own path");
+	let out = std::process::Command::new(exe)
+		.arg("--worker")
+		.args(args)
+		.stderr(std::process::Stdio::null())
+		.output()
+		.expect("spawn worker");
+	(out.status.code(), out.status.signal(), String::from_utf8_lossy(&out.stdout).to_string())
+}
